@@ -200,6 +200,28 @@ func (r *c11Runner) one(cs *Case) []string {
 			return d
 		}
 	}
+	// G: a probe instruction after the mirrored one. What the first instruction leaves behind besides the exported
+	// state (an emulated MEMPTR, a "last instruction changed the flags" latch) must be the same in both forms, so
+	// the complete outcome of the next instruction - undocumented flag bits included, this is the tree against
+	// itself - must agree: BIT 0,(HL) and SCF.
+	if nAccA >= 0 {
+		for _, probe := range [][]uint8{{0xCB, 0x46}, {0x37}} {
+			qa, pA := r.run(0, cs, 0xDD, &cs.S)
+			qb, pB := r.run(1, cs, 0xFD, &ms)
+			if pA != nil || pB != nil || mirrorState(qb) != qa {
+				break
+			}
+			r.mem[0].Poke(qa.PC, probe...)
+			r.mem[1].Poke(qb.PC, probe...)
+			p0, p1 := c02Step(&r.cpu[0]), c02Step(&r.cpu[1])
+			s0, s1 := fromCPU(&r.cpu[0]), mirrorState(fromCPU(&r.cpu[1]))
+			if fmt.Sprint(p0) != fmt.Sprint(p1) || (p0 == nil && s0 != s1) {
+				d = append(d, fmt.Sprintf("the instruction % X executed right after it ends differently in the two forms (what the first instruction left behind is not mirrored): after DD %v ; after FD (unmirrored) %v", probe, stateMap(&s0), stateMap(&s1)))
+				r.diff = d
+				return d
+			}
+		}
+	}
 	// F: an embedder that switches banks by re-pointing CPU.Memory from inside the callback at access k of the
 	// Step. Which object serves the rest of the instruction is the implementation's business - but it must be
 	// the same business in both forms.
@@ -295,7 +317,7 @@ func checkC11(c *Ctx) {
 		fs = append(fs, 0x44, 0x81, 0xC5, 0x3A)
 	}
 	lat := newLattice(c.Salt, false)
-	c.Rule = fmt.Sprintf("all 255 second bytes after DD/FD and all 256 fourth bytes after DDCB/FDCB (implemented or not) x lattice (as C01 quick, IX and IY independent and distinct; all 256 d for forms with a displacement) x %d F values; per case 4 real Steps: DD(s), FD(mirror s), DD(s with IY flipped), FD(mirror s with IX flipped); no reference model; during every device callback the other index register holds its value; the next Step with an NMI pending is the same in both forms; with the callback re-pointing CPU.Memory to another bank at every access after the first fetch of the Step (forms with a data access) both forms touch the two banks identically. Concrete-type pass: both forms of every byte on DumbMemory (len 65536, 65536+256, 32768) and MapMemory handed over unwrapped vs behind an opaque wrapper (same post-state and contents), which carries the symmetry over to the package's own device types. Non-trivial = the DD Step changed state beyond PC/R or made a data access (counted).", len(fs))
+	c.Rule = fmt.Sprintf("all 255 second bytes after DD/FD and all 256 fourth bytes after DDCB/FDCB (implemented or not) x lattice (as C01 quick, IX and IY independent and distinct; all 256 d for forms with a displacement) x %d F values; per case 4 real Steps: DD(s), FD(mirror s), DD(s with IY flipped), FD(mirror s with IX flipped); no reference model; during every device callback the other index register holds its value; the next Step with an NMI pending is the same in both forms; the probe instructions BIT 0,(HL) and SCF executed right after it end identically (all flag bits); with the callback re-pointing CPU.Memory to another bank at every access after the first fetch of the Step (forms with a data access) both forms touch the two banks identically. Concrete-type pass: both forms of every byte on DumbMemory (len 65536, 65536+256, 32768) and MapMemory handed over unwrapped vs behind an opaque wrapper (same post-state and contents), which carries the symmetry over to the package's own device types. Non-trivial = the DD Step changed state beyond PC/R or made a data access (counted).", len(fs))
 	c.Bound = fmt.Sprintf("lattice v1 quick x %d F", len(fs))
 	bg := obsBackground(c)
 	runners := make([]*c11Runner, 16)
